@@ -105,20 +105,20 @@ func init() {
 
 	add(true, "isnull", "$0 IS NULL", n, 1)
 	add(false, "isnotnull", "$0 IS NOT NULL", n, 1)
-	add(false, "isnullkw", "$0 ISNULL", n, 1)
-	add(false, "notnullkw", "$0 NOTNULL", n, 1)
+	add(true, "isnullkw", "$0 ISNULL", n, 1)
+	add(true, "notnullkw", "$0 NOTNULL", n, 1)
 	add(true, "is", "$0 IS $1", n, 2)
-	add(false, "isnot", "$0 IS NOT $1", n, 2)
+	add(true, "isnot", "$0 IS NOT $1", n, 2)
 	add(false, "isdistinct", "$0 IS DISTINCT FROM $1", n, 2)
 	add(false, "isnotdistinct", "$0 IS NOT DISTINCT FROM $1", n, 2)
 	add(true, "between", "$0 BETWEEN $1 AND $2", []string{"a", "5", "15"}, 3)
 	add(false, "notbetween", "$0 NOT BETWEEN $1 AND $2", []string{"a", "5", "15"}, 3)
 	add(true, "in", "$0 IN ($1, $2)", []string{"a", "10", "20"}, 3)
-	add(false, "notin", "$0 NOT IN ($1, $2)", []string{"a", "10", "20"}, 3)
+	add(true, "notin", "$0 NOT IN ($1, $2)", []string{"a", "10", "20"}, 3)
 	add(false, "in1", "$0 IN ($1)", []string{"a", "10"}, 2)
 	add(false, "in0", "$0 IN ()", n, 1)
 	add(true, "like", "$0 LIKE $1", st, 2)
-	add(false, "notlike", "$0 NOT LIKE $1", st, 2)
+	add(true, "notlike", "$0 NOT LIKE $1", st, 2)
 	add(false, "likeesc", "$0 LIKE $1 ESCAPE $2", []string{"b", "'x!%'", "'!'"}, 3)
 	add(false, "glob", "$0 GLOB $1", []string{"b", "'x*'"}, 2)
 	add(false, "notglob", "$0 NOT GLOB $1", []string{"b", "'x*'"}, 2)
@@ -141,15 +141,16 @@ func init() {
 	add(false, "castdecimal", "CAST($0 AS DECIMAL(10, 2))", n, 1)
 	add(false, "castdouble", "CAST($0 AS DOUBLE PRECISION)", n, 1)
 	add(true, "case", "CASE WHEN $0 THEN $1 END", n, 2)
-	add(false, "caseelse", "CASE WHEN $0 THEN $1 ELSE $2 END", n, 3)
+	add(true, "caseelse", "CASE WHEN $0 THEN $1 ELSE $2 END", n, 3)
 	add(false, "caseoperand", "CASE $0 WHEN $1 THEN $2 END", []string{"a", "10", "3"}, 3)
 	add(false, "case2", "CASE WHEN $0 THEN $1 WHEN $2 THEN $3 END", []string{"a > 15", "1", "a > 5", "2"}, 4)
 	add(true, "paren", "($0)", n, 1)
-	add(false, "rowvalue", "($0, $1)", n, 2)
+	add(true, "rowvalue", "($0, $1)", n, 2)
 	add(false, "roweq", "($0, $1) = ($2, $3)", []string{"a", "b", "10", "'x'"}, 4)
 
 	sub := func(name, tmpl string, atoms []string, arity int, reads string) {
-		forms = append(forms, form{name: name, tmpl: tmpl, atoms: atoms[:arity], reads: reads})
+		core := name == "insub" || name == "exists" || name == "scalar"
+		forms = append(forms, form{name: name, tmpl: tmpl, atoms: atoms[:arity], reads: reads, core: core})
 	}
 
 	sub("insub", "$0 IN (SELECT a FROM t2)", n, 1, "t2")
